@@ -154,6 +154,14 @@ def r2_payload_sites(ctx):
             if d not in ('self._make_request', 'self._make_streaming_request'):
                 continue
             pd = kwarg(c, 'payload_digest')
+            if pd is None and not any(k.arg is None for k in c.keywords):
+                # omitted: the callee's own default for the parameter
+                callee = s3.methods.get(d[5:])
+                if callee is not None:
+                    a_ = callee.node.args
+                    for p_, d_ in list(zip(a_.kwonlyargs, a_.kw_defaults)) + list(zip(a_.args[len(a_.args) - len(a_.defaults):], a_.defaults)):
+                        if p_.arg == 'payload_digest' and d_ is not None:
+                            pd = d_
             fparams = {a.arg for a in f.node.args.posonlyargs + f.node.args.args + f.node.args.kwonlyargs}
             if name in ('_make_request', '_make_streaming_request') and isinstance(pd, ast.Name) and pd.id in fparams and any(k.arg is None for k in c.keywords):
                 continue  # one request helper handing its own arguments to the other: judged at the outer call sites
@@ -200,7 +208,12 @@ def r2_payload_sites(ctx):
             hd = kwarg(c, 'headers')
             okc = isinstance(content, ast.Name) and content.id == po.node.args.args[2].arg
             cl = [v for k, v in zip(hd.keys, hd.values) if isinstance(k, ast.Constant) and k.value == 'content-length'] if isinstance(hd, ast.Dict) else []
-            okl = bool(cl) and isinstance(content, ast.Name) and src(cl[0]) == f'str(len({content.id}))'
+            clv = cl[0] if cl else None
+            if isinstance(clv, ast.Call) and dotted(clv.func) == 'str' and len(clv.args) == 1 and isinstance(clv.args[0], ast.Name):
+                dv_ = deref_at(po.node, clv.args[0])
+                if dv_ is not clv.args[0]:
+                    clv = ast.Call(func=clv.func, args=[dv_], keywords=[])
+            okl = bool(cl) and isinstance(content, ast.Name) and src(clv) == f'str(len({content.id}))'
             ctx.check(okc and okl, 'C16.R2', f'{func_label(po)}|put-object-content', loc(po, c), '_put_object sends content=data with content-length=len(data)', '_put_object: content / content-length do not describe the hashed data')
     us = s3.methods.get('upload_stream')
     ev = Evaluator(corpus, depth=1)
@@ -215,6 +228,8 @@ def r2_payload_sites(ctx):
     for c in calls_in(ps.node):
         if dotted(c.func) == 'self._make_request':
             content = kwarg(c, 'content')
+            if isinstance(content, ast.Name):
+                content = deref_at(ps.node, content)
             okc = isinstance(content, ast.Call) and any(isinstance(a, ast.Name) and a.id == 'stream' for a in content.args)
             hd = kwarg(c, 'headers')
             cl = [v for k, v in zip(hd.keys, hd.values) if isinstance(k, ast.Constant) and k.value == 'content-length'] if isinstance(hd, ast.Dict) else []
